@@ -48,6 +48,15 @@ class Evaluator:
                 continue   # docstring
             elif isinstance(st, ast.Pass):
                 continue
+            elif st.__class__.__name__ == "InlineBlock":
+                self.block(st.body)          # a helper analysed in place (inline.py) - tail blocks only
+            elif isinstance(st, ast.Try):
+                # the modelled domain raises nothing: the body runs, then else / finally
+                self.block(st.body)
+                self.block(st.orelse)
+                self.block(st.finalbody)
+            elif isinstance(st, ast.Raise):
+                raise _Return(("raise", unparse(st.exc)[:40] if st.exc is not None else ""))
             else:
                 raise AnalysisError(f"evaluator: unsupported statement `{unparse(st)[:60]}`")
 
@@ -112,6 +121,9 @@ class Evaluator:
         if isinstance(e, ast.Call):
             if isinstance(e.func, ast.Name) and e.func.id in ("isinstance", "callable", "bool") and not e.keywords:
                 return _BUILTINS[e.func.id](*[self.ev(a) for a in e.args])
+            if isinstance(e.func, ast.Name) and e.func.id in self.env and callable(self.env[e.func.id]) and not e.keywords:
+                # a callable of the modelled domain (the `unprovided` sentinel, copy_value ...)
+                return self.env[e.func.id](*[self.ev(a) for a in e.args])
             if isinstance(e.func, ast.Attribute) and isinstance(e.func.value, ast.Name) and e.func.value.id == "self":
                 name = e.func.attr
                 target = getattr(self.env["self"], name, None)
